@@ -13,8 +13,9 @@
          "details only inside the body", OK / not OK of the gRPC code);
     (ii) [prop]: the specification's predicates ([C12.Spec.seen_ok], [same_reply]) on the
          OBSERVATIONS — no model function is involved;
-    (iii) the guards of C12-F1 / C12-F2 / C12-F4 on the input.
-    [C12.EvalSound.eval_sound]: corr, a sane oracle and no guard imply prop. *)
+    (iii) the guards of C12-F1 / C12-F2 / C12-F5 / C12-F4 (repaired: never fires with fx4 = true) on the input.
+    [C12.EvalSound.eval_sound]: corr and a sane oracle imply [prop_w (waived fx k)] (the clauses no open
+    finding breaks on that input); [eval_sound_unguarded]: with no guard firing they imply [prop]. *)
 From HV Require Export Base.Prelude Base.ErrChain C12.Model C12.Inputs C12.Spec C12.Stack C12.Proofs C12.StackProofs.
 Local Open Scope Z_scope.
 
